@@ -726,7 +726,7 @@ func TestC12BindInitiator(t *testing.T) {
 				local, _ = local.WithResource("orchard'<&>")
 			}
 		}
-		policy := rapid.SampledFrom([]string{"result", "result", "result-other", "error", "wrongid", "malformed", "nobind", "typeget"}).Draw(rt, "policy")
+		policy := rapid.SampledFrom([]string{"result", "result", "result-other", "error", "wrongid", "noid", "emptyid", "notype", "malformed", "nobind", "typeget"}).Draw(rt, "policy")
 		assigned := local
 		switch policy {
 		case "result-other":
@@ -761,6 +761,13 @@ func TestC12BindInitiator(t *testing.T) {
 					return []byte(`<iq type="error" id="` + esc(id) + `"><error type="cancel"><conflict xmlns="urn:ietf:params:xml:ns:xmpp-stanzas"/></error></iq>`)
 				case "wrongid":
 					return []byte(`<iq type="result" id="` + esc(id) + `x"><bind xmlns="` + bindNS + `"><jid>` + esc(assigned.String()) + `</jid></bind></iq>`)
+				case "noid":
+					// a reply that does not name the request it answers
+					return []byte(`<iq type="result"><bind xmlns="` + bindNS + `"><jid>` + esc(assigned.String()) + `</jid></bind></iq>`)
+				case "emptyid":
+					return []byte(`<iq id="" type="result"><bind xmlns="` + bindNS + `"><jid>` + esc(assigned.String()) + `</jid></bind></iq>`)
+				case "notype":
+					return []byte(`<iq id="` + esc(id) + `"><bind xmlns="` + bindNS + `"><jid>` + esc(assigned.String()) + `</jid></bind></iq>`)
 				case "malformed":
 					return []byte(`<iq type="result" id="` + esc(id) + `"><bind xmlns="` + bindNS + `"><jid>@@@</jid></bind></iq>`)
 				case "nobind":
